@@ -259,8 +259,191 @@ def sites_of(rel, src):
         fn = enclosing(spans, pos)
         key = (fn, kind, text)
         seen[key] = seen.get(key, 0) + 1
-        out.append((rel, fn, kind, text, seen[key] - 1, src.count('\n', 0, pos) + 1))
+        out.append((rel, fn, kind, text, seen[key] - 1, src.count('\n', 0, pos) + 1, auto_fact(code, spans, pos, kind, text)))
     return out
+
+
+# ------------------------------------------------------------------------------------------------
+# facts that let Coq decide a site by computation
+# ------------------------------------------------------------------------------------------------
+MUTATORS = r"\.\s*(?:push|pop|remove|clear|truncate|retain|drain|insert|swap_remove|dedup|split_off|resize|extend|append)\s*\("
+
+
+def squash(t):
+    return re.sub(r"\s+", "", t)
+
+
+def header_before(code, i, lo):
+    """text of the statement header that ends at the `{` at index i"""
+    j = i
+    depth = 0
+    while j > lo:
+        ch = code[j - 1]
+        if ch in ')]':
+            depth += 1
+        elif ch in '([':
+            depth -= 1
+        elif ch in ';{}' and depth <= 0:
+            break
+        j -= 1
+    return code[j:i], j
+
+
+def open_of(code, close):
+    """index of the `{` matching the `}` at index close"""
+    depth = 0
+    j = close
+    while j >= 0:
+        if code[j] == '}':
+            depth += 1
+        elif code[j] == '{':
+            depth -= 1
+            if depth == 0:
+                return j
+        j -= 1
+    return None
+
+
+def enclosing_facts(code, pos, lo):
+    """-> list of ('pos', cond, guard_pos) / ('neg', cond, guard_pos) / ('arm', scrutinee, pattern, siblings, guard_pos)
+    for the blocks that enclose `pos` inside the function starting at lo"""
+    facts = []
+    i = pos
+    depth = 0
+    pending_arm = None
+    while i > lo:
+        i -= 1
+        ch = code[i]
+        if ch == '}':
+            depth += 1
+        elif ch == '{':
+            if depth > 0:
+                depth -= 1
+                continue
+            head, hstart = header_before(code, i, lo)
+            h = head.strip()
+            m = re.match(r"^(?:else\s+)?if\s+(?!let\b)(.*)$", h, re.S)
+            if m:
+                facts.append(('pos', m.group(1), i))
+            elif re.match(r"^else$", h):
+                # the block before `else`
+                k = hstart - 1
+                while k > lo and code[k] != '}':
+                    k -= 1
+                o = open_of(code, k) if code[k] == '}' else None
+                if o is not None:
+                    h2, _ = header_before(code, o, lo)
+                    m2 = re.match(r"^if\s+(?!let\b)(.*)$", h2.strip(), re.S)
+                    if m2:
+                        facts.append(('neg', m2.group(1), i))
+            elif re.search(r"=>\s*$", h):
+                pending_arm = (re.sub(r"=>\s*$", "", h).strip(), i)
+            else:
+                m3 = re.match(r"^(?:let\s+[^=]*=\s*|return\s+)?match\s+(.*)$", h, re.S)
+                if m3 and pending_arm is not None:
+                    c = close_of(code, i)
+                    body = code[i + 1:c] if c else ''
+                    sib = []
+                    d = 0
+                    for mm in re.finditer(r"[{}]|(?:^|[\n,}])\s*(\d+)\s*=>", body):
+                        if mm.group(0) == '{':
+                            d += 1
+                        elif mm.group(0) == '}':
+                            d -= 1
+                        elif d == 0 and mm.group(1) is not None:
+                            sib.append(int(mm.group(1)))
+                    facts.append(('arm', m3.group(1), pending_arm[0], sib, pending_arm[1]))
+                pending_arm = None
+    return facts
+
+
+def close_of(code, i):
+    depth = 0
+    j = i
+    while j < len(code):
+        if code[j] == '{':
+            depth += 1
+        elif code[j] == '}':
+            depth -= 1
+            if depth == 0:
+                return j
+        j += 1
+    return None
+
+
+def len_lower_bound(code, pos, lo, var):
+    """largest n such that an enclosing condition of the site says `var` has at least n elements, and nothing
+    between that condition and the site mutates `var`"""
+    v = re.escape(squash(var))
+    v = re.sub(r"\\\.as_bytes\\\(\\\)$", "", v)
+    best = 0
+    for f in enclosing_facts(code, pos, lo):
+        n = 0
+        if f[0] == 'pos':
+            for c in squash(f[1]).split('&&'):
+                for pat, fn in ((r"^!%s\.is_empty\(\)$" % v, lambda m: 1), (r"^%s\.len\(\)==(\d+)$" % v, lambda m: int(m.group(1))),
+                                (r"^%s\.len\(\)>=(\d+)$" % v, lambda m: int(m.group(1))), (r"^%s\.len\(\)>(\d+)$" % v, lambda m: int(m.group(1)) + 1),
+                                (r"^(\d+)<=%s\.len\(\)$" % v, lambda m: int(m.group(1))), (r"^(\d+)<%s\.len\(\)$" % v, lambda m: int(m.group(1)) + 1),
+                                (r"^%s\.len\(\)!=0$" % v, lambda m: 1)):
+                    m = re.match(pat, c)
+                    if m:
+                        n = max(n, fn(m))
+        elif f[0] == 'neg':
+            c = squash(f[1])
+            for pat, fn in ((r"^%s\.is_empty\(\)$" % v, lambda m: 1), (r"^%s\.len\(\)==0$" % v, lambda m: 1),
+                            (r"^%s\.len\(\)<(\d+)$" % v, lambda m: int(m.group(1))), (r"^%s\.len\(\)<=(\d+)$" % v, lambda m: int(m.group(1)) + 1)):
+                m = re.match(pat, c)
+                if m:
+                    n = max(n, fn(m))
+        elif f[0] == 'arm':
+            if re.match(r"^%s\.len\(\)$" % v, squash(f[1])):
+                if re.match(r"^\d+$", f[2]):
+                    n = int(f[2])
+                elif f[2] == '_' and f[3] and sorted(f[3]) == list(range(len(f[3]))):
+                    n = len(f[3])
+        if n > 0:
+            between = code[f[-1]:pos]
+            name = squash(var).split('.')[0].split('[')[0]
+            if re.search(r"\b%s\s*%s" % (re.escape(name), MUTATORS), between) or re.search(r"\b%s\s*=[^=]" % re.escape(name), between):
+                n = 0
+        best = max(best, n)
+    return best
+
+
+LIT = r"-?\d+(?:\.\d+)?"
+CTORS = [('CNzRectXywh', r"NonZeroRect::from_xywh\((%s),(%s),(%s),(%s)\)\.unwrap\(\)$" % (LIT, LIT, LIT, LIT)),
+         ('CRectXywh', r"(?<!NonZero)Rect::from_xywh\((%s),(%s),(%s),(%s)\)\.unwrap\(\)$" % (LIT, LIT, LIT, LIT)),
+         ('CSize', r"Size::from_wh\((%s),(%s)\)\.unwrap\(\)$" % (LIT, LIT)),
+         ('CPositive', r"PositiveF32::new\((%s)\)\.unwrap\(\)$" % LIT)]
+
+
+def qlit(t):
+    from fractions import Fraction
+    f = Fraction(t)
+    return "(Qmake (%d) %d)" % (f.numerator, f.denominator)
+
+
+def auto_fact(code, spans, pos, kind, text):
+    """Gallina term of type `auto` or None"""
+    if kind == 'unwrap':
+        sq = squash(text)
+        for name, pat in CTORS:
+            m = re.search(pat, sq)
+            if m:
+                return "ACtor %s [%s]" % (name, "; ".join(qlit(g) for g in m.groups()))
+        return None
+    if kind == 'index':
+        m = re.match(r"^(.*)\[(\d+)\]$", text.strip(), re.S)
+        if not m:
+            return None
+        lo = 0
+        for name, a, b in spans:
+            if a <= pos <= b and a >= lo:
+                lo = a
+        n = len_lower_bound(code, pos, lo, m.group(1))
+        if n > int(m.group(2)):
+            return "AIndex %d %d" % (int(m.group(2)), n)
+    return None
 
 
 def coq_str(s):
@@ -291,7 +474,7 @@ def generate(api):
         out = [api.HEADER,
                "(* Every unwrap / expect / assert / debug_assert / unreachable / panic / index expression of",
                "   crates/usvg/src/parser/**, tree/mod.rs, tree/filter.rs (tools/gen_sites.py). *)",
-               "From Coq Require Import String List.\nImport ListNotations.\nLocal Open Scope string_scope.\n",
+               "From Coq Require Import String List QArith.\nImport ListNotations.\nLocal Open Scope string_scope.\n",
                "Inductive skind := KUnwrap | KExpect | KAssert | KDebugAssert | KUnreachable | KPanic | KIndex.",
                "(* file, enclosing fn, kind, statement text, ordinal among equal keys of that fn *)",
                "Record site := mk_site { s_file : string; s_fn : string; s_kind : skind; s_text : string; s_ord : nat }.\n",
@@ -299,16 +482,29 @@ def generate(api):
         KN = {'unwrap': 'KUnwrap', 'expect': 'KExpect', 'assert': 'KAssert', 'debug_assert': 'KDebugAssert',
               'unreachable': 'KUnreachable', 'panic': 'KPanic', 'index': 'KIndex'}
         lines = []
-        for rel, fn, kind, text, ordn, line in allsites:
-            lines.append("  mk_site %s %s %s %s %d" % (coq_str(rel), coq_str(fn), KN[kind], coq_str(text), ordn))
+        autos = []
+        for rel, fn, kind, text, ordn, line, auto in allsites:
+            key = "mk_site %s %s %s %s %d" % (coq_str(rel), coq_str(fn), KN[kind], coq_str(text), ordn)
+            lines.append("  " + key)
+            if auto:
+                autos.append("  (%s, %s)" % (key, auto))
         out.append(";\n".join(lines))
+        out.append("].\n")
+        out.append("(* facts read off the source next to a site, from which Coq decides the site by computation:")
+        out.append("   AIndex k n   the site is `v[k]` with a literal k, and an enclosing `if` / `else` / match arm on `v.len()` /")
+        out.append("                `v.is_empty()` says that v has at least n elements (nothing in between mutates v)")
+        out.append("   ACtor c args the unwrapped value is constructor c applied to the literals args *)")
+        out.append("Inductive ctor := CNzRectXywh | CRectXywh | CSize | CPositive.")
+        out.append("Inductive auto := AIndex (k n : nat) | ACtor (c : ctor) (args : list Q).")
+        out.append("Definition site_auto : list (site * auto) := [")
+        out.append(";\n".join(autos))
         out.append("].\n")
         api.write_gen('Sites.v', "\n".join(out))
         # a side file with line numbers for the people maintaining the ledger (not read by Coq)
         import translate
         with open(os.path.join(translate.GEN, 'Sites.lines.txt'), 'w') as f:
-            for rel, fn, kind, text, ordn, line in allsites:
-                f.write("%s:%d\t%s\t%s\t%d\t%s\n" % (rel, line, fn, kind, ordn, text))
-        api.ok('tables', 'sites', sites=len(allsites), files=len(rels))
+            for rel, fn, kind, text, ordn, line, auto in allsites:
+                f.write("%s:%d\t%s\t%s\t%d\t%s\t%s\n" % (rel, line, fn, kind, ordn, text, auto or '-'))
+        api.ok('tables', 'sites', sites=len(allsites), files=len(rels), auto=len(autos))
     except (api.Unsupported, OSError, ValueError, IndexError) as e:
         api.broken('table', 'panic sites', PROPS, e)
